@@ -490,8 +490,100 @@ class P:
     return C.rec
 
 
+# ------------------------------------------------------------------------------------------------
+# a SUBCLASS adds the attribute whose name is the singular of an inherited collection
+# ------------------------------------------------------------------------------------------------
+SUBCOLL = {
+    "values": ("List[int]", "[]", "value", 3, lambda c: list(c)),
+    "scores": ("Dict[str, int]", "{}", "score", None, None),
+    "tags": ("Set[int]", "set()", "tag", 3, lambda c: sorted(c)),
+}
+
+
+def subclass_collision_case(coll, bootstrap, order, occupant):
+    """-> problems.  P declares the collection, S(P) declares the scalar named like its singular."""
+    ann, dflt, sing, elem, as_list = SUBCOLL[coll]
+    deco = "@spec_class(bootstrap=True)" if bootstrap else "@spec_class"
+    occ = f"    def with_{coll}_item(self, *a, **k):\n        return 'user'\n" if occupant else ""
+    src = f"{deco}\nclass P:\n    {coll}: {ann} = {dflt}\n{occ}\n{deco}\nclass S(P):\n    {sing}: int = 0\n"
+    ns = build_undecorated(src)
+    P, S = ns["P"], ns["S"]
+    user_fn = vars(P).get(f"with_{coll}_item") if occupant else None
+    probs = []
+
+    def use_P():
+        if coll == "scores":
+            r = getattr(P(), f"with_{sing}")("k", 3)
+            if getattr(r, coll) != {"k": 3}:
+                probs.append(f"P().with_{sing}('k', 3) gave {getattr(r, coll)!r}")
+        else:
+            r = getattr(P(), f"with_{sing}")(elem)
+            if as_list(getattr(r, coll)) != [elem]:
+                probs.append(f"P().with_{sing}({elem}) gave {getattr(r, coll)!r}")
+
+    def use_S():
+        S()
+
+    try:
+        for step in order:
+            {"P": use_P, "S": use_S}[step]()
+        # the parent is what it was declared to be, whatever its subclass needed
+        if P.__spec_class__.attrs[coll].item_name != sing:
+            probs.append(f"P's specification of {coll} was renamed to item_name={P.__spec_class__.attrs[coll].item_name!r} by the subclass")
+        use_P()
+        if occupant:
+            if vars(P).get(f"with_{coll}_item") is not user_fn:
+                probs.append(f"P.with_{coll}_item (defined in P's own body) was replaced")
+        elif f"with_{coll}_item" in vars(P):
+            probs.append(f"undocumented helper with_{coll}_item appeared on P")
+        # the subclass: scalar helpers for the new attribute, element helpers of the inherited collection under <attr>_item
+        r = getattr(S(), f"with_{sing}")(7)
+        if getattr(r, sing, None) != 7:
+            probs.append(f"S().with_{sing}(7) did not set the scalar attribute: {vars(r)!r}")
+        missing = [f"{pre}_{coll}_item" for pre in ("with", "update", "transform", "without")
+                   if not callable(getattr(S, f"{pre}_{coll}_item", None)) or (occupant and pre == "with")]
+        if occupant:
+            missing = [m for m in missing if m != f"with_{coll}_item"]
+        if missing:
+            probs.append(f"S lacks the element helpers of the inherited collection under the fallback name: {missing}")
+        elif not occupant:
+            if coll == "scores":
+                r = getattr(S(), f"with_{coll}_item")("k", 3)
+                ok = getattr(r, coll) == {"k": 3}
+            else:
+                r = getattr(S(), f"with_{coll}_item")(elem)
+                ok = as_list(getattr(r, coll)) == [elem]
+            if not ok:
+                probs.append(f"S().with_{coll}_item(...) gave {getattr(r, coll)!r}")
+    except Exception as e:
+        probs.append(f"raised {type(e).__name__}: {e!s:.120}")
+    return probs
+
+
+def subclass_collision_worker(task):
+    C = Counter()
+    for coll in SUBCOLL:
+        for bootstrap in (False, True):
+            for order in ((), ("S",), ("P", "S"), ("S", "P"), ("P",)):
+                for occupant in (False, True):
+                    probs = subclass_collision_case(coll, bootstrap, order, occupant)
+                    C.inc("states")
+                    C.inc("transitions")
+                    C.inc("evaluations")
+                    case = {"part": "subclass_collision", "coll": coll, "bootstrap": bootstrap, "order": list(order), "occupant": occupant}
+                    if probs:
+                        C.viol(violation(PROP, {"part": "subclass_collision", "coll": coll, "bootstrap": bootstrap, "first_uses": "+".join(order) or "none",
+                                                "occupant": occupant, "kind": "inherited_collection_collision"}, {"problems": probs[:4]}, case))
+                    else:
+                        C.inc("traces_validated_against_impl")
+                        C.nontrivial(("subclass_collision", coll, bootstrap, order, occupant))
+    C.sample({"part": "subclass_collision", "collections": list(SUBCOLL)})
+    return C.rec
+
+
 def work(task):
-    return {"occupant": occupants_worker, "naming": naming_worker, "selection": selection_worker, "inherit": inherit_worker}[task["part"]](task)
+    return {"occupant": occupants_worker, "naming": naming_worker, "selection": selection_worker, "inherit": inherit_worker,
+            "subclass_collision": subclass_collision_worker}[task["part"]](task)
 
 
 def run_case(case):
@@ -502,6 +594,11 @@ def run_case(case):
     if case["part"] == "naming":
         sub = naming_worker({"specs": [[tuple(x) for x in case["attrs"]]]})
         return [v for v in sub["violations"] if v["case"]["attrs"] == case["attrs"] and v["case"]["bootstrap"] == case["bootstrap"]]
+    if case["part"] == "subclass_collision":
+        probs = subclass_collision_case(case["coll"], case["bootstrap"], tuple(case["order"]), case["occupant"])
+        return [violation(PROP, {"part": "subclass_collision", "coll": case["coll"], "bootstrap": case["bootstrap"],
+                                 "first_uses": "+".join(case["order"]) or "none", "occupant": case["occupant"],
+                                 "kind": "inherited_collection_collision"}, {"problems": probs[:4]}, case)] if probs else []
     if case["part"] == "inherit":
         sub = inherit_worker({})
         return [v for v in sub["violations"] if all(v["case"].get(k) == case.get(k) for k in ("scenario", "bootstrap", "decorated"))]
@@ -516,13 +613,15 @@ def main(run):
     tasks += [{"part": "naming", "specs": [s]} for s in NAMING]
     tasks.append({"part": "selection"})
     tasks.append({"part": "inherit"})
+    tasks.append({"part": "subclass_collision"})
     for rec in pmap(work, tasks):
         run.merge(rec)
     run.add(rule=(
         "(A) per class of the family x {lazy, eager} x every generated helper name (+ __init__/__repr__/__eq__) x occupant kind "
         "{function, staticmethod, property, plain value} (+ the unmodified class); (B) 14 attribute-name sets with singular/plural "
         "collisions in both declaration orders; (C) all init/repr/eq switch combinations and 9 attrs/attrs_typed/attrs_skip/key/overflow "
-        "selections, private nominations; states = class variants"
+        "selections, private nominations; (D) a subclass declaring the attribute named like the singular of an inherited list/dict/set: 3 collections x "
+        "{lazy, eager} x 5 orders of first uses x {with, without} a user method under the fallback name in the parent; states = class variants"
     ))
     run.assumptions += [
         "Attr(...) / dataclasses.field(...) declarations in the class body are replaced by their default value by design",
